@@ -122,8 +122,7 @@ extern "C" void vf_main(void) {
 
 #if IS_CTOR
     // ---------------- constructors: destination is created by the operation
-    alignas(VA) unsigned char bufa[sizeof(VA)];
-    for (unsigned i = 0; i < sizeof(VA); ++i) bufa[i] = 0;
+    alignas(VA) unsigned char bufa[sizeof(VA)] = {};
     VA *pa = nullptr;
     const uint32_t nalloc0 = vf_nalloc(); const uint32_t ev0 = vf_tr_events();
     vf_fault_arm(VF_FMASK, fat1, VF_NFAULTS >= 2 ? fat2 : 0);
